@@ -123,6 +123,11 @@ EvmTransferOK(s, t, from) ==
             /\ Pos(c) => BigEq(t.tokenBal[Module], BigAdd(s.tokenBal[Module], c))
     /\ Pos(c) => BigLE(t.tokenBal[from], BigSub(s.tokenBal[from], c))
 
+Converted(s, t) == IF s.kind = "coin" THEN BigSub(s.escrowCoins, t.escrowCoins) ELSE BigSub(t.coinSupply, s.coinSupply)
+ConvertsExactly(s, t, to, amt) ==
+    (to = Module /\ s.registered /\ s.enabled /\ s.alive /\ s.behaviour \in {"honest", "delayedMalicious"} /\ Pos(amt))
+       => BigEq(Converted(s, t), amt)
+
 \* bank MsgSend of the pair's denom: value amt moves from `from` to `to` in whichever
 \* representation; whatever was converted on the way moved both sides of the backing equally
 Wealth(s, a) == BigAdd(s.coinBal[a], s.tokenBal[a])
@@ -160,10 +165,13 @@ StepOK(e, s, t) ==
                  SameBal(t, C2T(s, e.args.from, e.args.to, e.args.amt)) \/ SameBal(t, s)
            [] e.ev = "convert_erc20" ->
                  SameBal(t, T2C(s, e.args.from, e.args.to, e.args.amt)) \/ SameBal(t, s)
-           [] e.ev = "evm_transfer" -> EvmTransferOK(s, t, e.args.from)
+           \* ... and against a token that moves exactly what it is asked to move, a successful transfer to the module
+           \* address of a usable pair IS a conversion of exactly that amount ("debits one representation and credits
+           \* the other by exactly the same amount or fails without effect")
+           [] e.ev = "evm_transfer" -> EvmTransferOK(s, t, e.args.from) /\ ConvertsExactly(s, t, e.args.to, e.args.amt)
            \* several transfers to the module in ONE Ethereum transaction (a forwarding contract that pulls
            \* the holder's tokens): the same relation between what left the holder and what was converted
-           [] e.ev = "evm_batch" -> EvmTransferOK(s, t, e.args.from)
+           [] e.ev = "evm_batch" -> EvmTransferOK(s, t, e.args.from) /\ ConvertsExactly(s, t, Module, BigMul(e.args.amt, BigOfInt(e.args.k)))
            [] e.ev = "bank_send" -> BankSendOK(s, t, e.args.from, e.args.to, e.args.amt)
            [] e.ev = "ibc_recv" -> IbcInOK(s, t, e.args.to, e.args.amt)
            [] e.ev \in {"ibc_ack", "ibc_timeout"} -> IbcInOK(s, t, e.args.from, e.args.refund)
